@@ -142,6 +142,44 @@ def forced_types(s, n):
                 judge_forced(s, ro_txt, doc, cls_name)
 
 
+def duplicate_id_cases(s):
+    """Messages that leave two stories with one ID behind, and running orders that already hold such a pair
+    met by every kind of message: whatever raises must not have changed anything."""
+    from ..build import BLANK, E
+    idx = 0
+    new = lambda i, n=1: gen.simple_story(i, n)
+    ro_txt = gen.grid_ro(['A', 'B', 'C'], 'before', pretty=False)
+    cases = [('roStoryAppend', dict(carried=[new('B')])),
+             ('roStoryAppend', dict(carried=[new('N1'), new('N1')])),
+             ('roStoryReplace', dict(target='A', carried=[new('C')])),
+             ('EAStoryReplace', dict(target='A', carried=[new('N1'), new('B')])),
+             ('roStoryReplace', dict(target='A', carried=[new('A'), new('A')]))]
+    for kind, kw in cases:
+        idx += 1
+        if s.mine(idx):
+            K.run_case(s, ro_txt, kind, kw, ctx={'duplicates': 'created'})
+    idx += 1
+    if s.mine(idx):
+        rr = gen.grid_ro(['X', 'Y', 'X'], 'none').replace('roCreate', 'roReplace').replace(
+            '<messageID>1</messageID>', '<messageID>9</messageID>')
+        s.step(s.load(ro_txt), rr, {'duplicates': 'created by roReplace'})
+    for names in (['A', 'X', 'B', 'X'], ['X', 'X']):
+        dup_txt = gen.grid_ro(names, 'before', pretty=False)
+        cases = [('roStoryDelete', dict(ids=['A'])), ('roStoryDelete', dict(ids=['X'])), ('roStoryDelete', dict(ids=['gone'])),
+                 ('roStoryAppend', dict(carried=[new('N1')])), ('roStoryInsert', dict(target='X', carried=[new('N1')])),
+                 ('roStoryMove', dict(ids=['X'], target=BLANK)), ('EAStorySwap', dict(ids=['A', 'X'], target=BLANK)),
+                 ('roItemInsert', dict(story_ref='X', target=BLANK, carried=[B.item('n1', 'x')])),
+                 ('roItemDelete', dict(story_ref='A', ids=['A.0'])),
+                 ('roStorySend', dict(story_ref='X', body=[E('p', 'sent')], fields=['BODY'])),
+                 ('roMetadataReplace', dict(carried=[E('roSlug', 'new slug')])),
+                 ('roReadyToAir', dict()), ('roDelete', dict())]
+        for kind, kw in cases:
+            idx += 1
+            if s.mine(idx):
+                K.run_case(s, dup_txt, kind, kw, ctx={'duplicates': 'present'})
+    s.hist['duplicate_id_cases'] = idx
+
+
 def replay(s, data):
     w = data['witness']
     if w.get('type') == 'forced':
@@ -176,6 +214,7 @@ def run(s):
     odd_timing_inserts(s, 3 if q else 60)
     forced_types(s, 400 if q else 20000)
     K.idless_cases(s)
+    duplicate_id_cases(s)
 
 
 def gates(agg, tier):
